@@ -26,6 +26,7 @@ struct Hist {
     bool declaredByName;     // every point/channel of the object was declared by name in this history
     bool external;           // object came from an external file (labels may legitimately differ)
     bool specialFloats;
+    bool analogIncomplete;   // loaded from a file whose ANALOG group lacks mandatory parameters (see run())
     bool offSpec;            // an undocumented (unspecified) call was accepted: shape agreement is no longer judged
     bool namedChannels;      // this history's caller names its channels (README leaves them unnamed)
     std::vector<Frame> callerFrames;          // caller-side frame objects handed over earlier (C08)
